@@ -268,11 +268,15 @@ theorem connectBestChainT_ok {d : Disk} {s : State} (b : Block) (h : Sim d s) :
         | none => exact Ok.nil h
         | some ptd =>
           dsimp only
-          by_cases hside : b.diff + ptd ≤ tiptd ∨ b.height < s.fin + s.margin
-          · simp only [hside, if_true]
-            split <;> exact Ok.nil h
-          · simp only [hside, if_false]
-            exact reorgToT_ok b _ h
+          cases hff : findFork s b with
+          | none => exact Ok.nil h
+          | some f =>
+            dsimp only
+            by_cases hside : b.diff + ptd ≤ tiptd ∨ b.height < s.fin + s.margin
+            · simp only [hside, if_true]
+              exact Ok.nil h
+            · simp only [hside, if_false]
+              exact reorgToT_ok b _ h
 
 theorem storeBlockT_ok {d : Disk} {s s1 : State} (b : Block) (h : Sim d s) (hs : storeBlock s b = some s1) :
     Ok d (storeBlockT s b) s1 := by
